@@ -2,6 +2,7 @@ package props
 
 import (
 	"fmt"
+	"sort"
 	"strings"
 	"testing"
 
@@ -262,6 +263,57 @@ func TestC10(t *testing.T) {
 			for _, m := range []int{0, 1, 2} {
 				w.Judge(pair(s, maskCase(s, ex, m, 0)))
 			}
+		}
+	})
+
+	// (2c) every word of the keyword table in five templates x {upper, alternating, alternating', hash mask},
+	// and every multi-word key with every per-word case assignment (each word all-upper or all-lower)
+	var tableKeys []string
+	for k, v := range kwTab() {
+		if v != 'F' && len(k) >= 2 && gen.IsLetter(k[0]) {
+			tableKeys = append(tableKeys, gen.LowerASCII(k))
+		}
+	}
+	sort.Strings(tableKeys)
+	p = c.rec.NewPart("table_keys_masks", fmt.Sprintf("%d word keys of the keyword table x 5 templates x 4 masks; multi-word keys x every per-word case assignment", len(tableKeys)), false, true, "")
+	c.ParRange(p, int64(len(tableKeys)), func(w *Worker, i int64) {
+		k := tableKeys[i]
+		for _, t := range []string{"1 and K('a')=1", "1 K 1", "x' K --", "1; K t values(1)", "1 union K select 1"} {
+			s := strings.ReplaceAll(t, "K", k)
+			ex := sqliExempt(s)
+			for m := 1; m <= 4; m++ {
+				w.Judge(pair(s, maskCase(s, ex, m, int(i))))
+			}
+		}
+		words := strings.Split(k, " ")
+		if len(words) >= 2 && len(words) <= 6 {
+			for m := 1; m < 1<<len(words); m++ {
+				ws := make([]string, len(words))
+				for j, wd := range words {
+					if m>>j&1 == 1 {
+						ws[j] = gen.UpperASCII(wd)
+					} else {
+						ws[j] = wd
+					}
+				}
+				mixed := strings.Join(ws, " ")
+				for _, t := range []string{"1 K 1", "1; K t values(1)", "x' K select 1 --", "1 K select 1"} {
+					w.Judge(pair(strings.ReplaceAll(t, "K", k), strings.ReplaceAll(t, "K", mixed)))
+				}
+			}
+		}
+	})
+	// (2d) code points that strings.ToUpper folds into ASCII, inside keywords: the relation must hold whichever way the library folds them
+	var uf []string
+	for _, s := range []string{"1 un\xc4\xb1on \xc5\xbfelect 1", "1 union \xc5\xbfelect 1", "x' or \xc5\xbfleep(5) --", "1 or u\xc5\xbfer()=1", "1; \xc4\xb1f 1=1 select 1", "1 un\xc4\xb1on all select 1", "1 l\xc4\xb1ke 1 or 1", "1 \xc4\xb1n (1) or 1"} {
+		uf = append(uf, s)
+	}
+	p = c.rec.NewPart("unicode_fold_keywords_masks", "keywords spelled with U+0131 / U+017F x every mask over the remaining ASCII letters (<= 12) or 304 masks", false, true, "")
+	c.ParRange(p, int64(len(uf)), func(w *Worker, i int64) {
+		s := uf[i]
+		ex := sqliExempt(s)
+		for m := 0; m < 304; m++ {
+			w.Judge(pair(s, maskCase(s, ex, m, int(i))))
 		}
 	})
 
